@@ -12,7 +12,7 @@ from props import c01, c05
 
 PROP = "C06"
 EPS = 2.0 ** -52
-KAPPA_MAX = 1e12
+KAPPA_MAX = 1e10
 RULE = ("Hypothesis: Gaussians as in C05 (Sigma = B B^T + diag(d) positive definite, p<=7, scaled by 4^s, s in [-20,20], so that "
         "tiny and huge variances occur), targets y and regressor sets S in a drawn order given as int / list / tuple / range / "
         "ndarray, incl. empty S and S containing y. Oracle: exact normal equations in Fractions (b_S = Sigma_SS^-1 Sigma_Sy, "
@@ -31,9 +31,11 @@ ASSUMPTIONS = [
 
 
 def exact_regression(mean, cov, y, Sl):
+    """Exact least-squares fit plus *equilibrated* norms (every coordinate in its own power-of-two unit, see c05.unit)."""
     p = len(mean)
     b = [Fraction(0)] * p
-    norms = {"ks": 1.0, "sinv": 0.0}
+    u = [c05.unit(cov[i][i]) for i in range(p)]
+    norms = {"ks": 1.0, "sss": 0.0, "u": [float(x) for x in u]}
     if Sl:
         Sss = X.block(cov, Sl, Sl)
         Sinv = X.inv(Sss)
@@ -41,20 +43,27 @@ def exact_regression(mean, cov, y, Sl):
         bs = X.mv(Sinv, rhs)
         for s, v in zip(Sl, bs):
             b[s] = v
-        norms = {"ks": float(X.norm_inf(Sss) * X.norm_inf(Sinv)), "sinv": float(X.norm_inf(Sinv)), "sss": float(X.norm_inf(Sss))}
+        k = len(Sl)
+        Sss_s = [[Sss[a][c] / (u[Sl[a]] * u[Sl[c]]) for c in range(k)] for a in range(k)]
+        Sinv_s = [[Sinv[a][c] * (u[Sl[a]] * u[Sl[c]]) for c in range(k)] for a in range(k)]
+        norms.update(ks=float(X.norm_inf(Sss_s) * X.norm_inf(Sinv_s)), sss=float(X.norm_inf(Sss_s)))
     c = mean[y] - sum(bi * mi for bi, mi in zip(b, mean))
     mse = cov[y][y] - sum(b[s] * cov[s][y] for s in Sl)
     return b, c, mse, norms
 
 
 def _tols(mean, cov, y, Sl, b, norms):
+    """(tolerance vector for the coefficients, tolerance of the intercept, tolerance of the mse): an equilibrated
+    norm-wise bound 1000 * eps * n * cond, mapped back to the units u_y / u_s of each coefficient."""
     n = len(Sl) + 1
-    bmax = float(max((abs(v) for v in b), default=Fraction(0)))
-    tol_coef = 100 * EPS * n * norms["ks"] * bmax + 1e-300
-    abs_mu = float(sum(abs(m) for m in mean))
-    tol_int = tol_coef * abs_mu + 100 * EPS * n * float(abs(mean[y]) + sum(abs(bi * mi) for bi, mi in zip(b, mean))) + 1e-300
+    p = len(mean)
+    u = norms["u"]
+    bs_max = max((abs(float(b[s])) * u[s] / u[y] for s in Sl), default=0.0)        # coefficients in scaled units
+    t = 1000 * EPS * n * norms["ks"] * bs_max
+    tol_coef = np.array([t * u[y] / u[s] if s in Sl else 0.0 for s in range(p)]) + 1e-300
+    tol_int = float(sum(tol_coef[s] * abs(float(mean[s])) for s in Sl)) + 100 * EPS * n * float(abs(mean[y]) + sum(abs(bi * mi) for bi, mi in zip(b, mean))) + 1e-300
     quad = float(cov[y][y] + sum(abs(b[i]) * abs(cov[i][j]) * abs(b[j]) for i in Sl for j in Sl) + 2 * sum(abs(cov[y][s]) * abs(b[s]) for s in Sl))
-    tol_mse = 100 * EPS * (len(mean) + 1) * quad + norms.get("sss", 0.0) * len(Sl) ** 2 * tol_coef ** 2 + 1e-300
+    tol_mse = 100 * EPS * (p + 1) * quad + norms["sss"] * len(Sl) ** 2 * t ** 2 * u[y] ** 2 + 1e-300
     return tol_coef, tol_int, tol_mse
 
 
@@ -73,6 +82,7 @@ def check(case):
         return ["discard_illconditioned"]
     tol_coef, tol_int, tol_mse = _tols(mean, cov, y, Sl, b, norms)
     dist = must(lib(sempler.NormalDistribution, fmean.copy(), fcov.copy()), "NormalDistribution")
+    ratios = []
     lab = ["Spres_" + case.get("Spres", "list")] + (["int_cov"] if fcov.dtype != float else [])
     if len(Sl) >= 2:
         lab.append("S_ge2")
@@ -93,9 +103,12 @@ def check(case):
         off = [i for i in range(p) if i not in Sl]
         if any(coefs[i] != 0 for i in off):
             raise Violation("coef_outside_S", "%s: non-zero coefficient outside S: %s; %s" % (what, coefs.tolist(), ctx))
-        e = np.abs(coefs - wb).max()
-        if not e <= tol_coef:
-            raise Violation("coef_wrong", "%s: coefficients %s vs exact %s (err %.3g > tol %.3g); %s" % (what, coefs.tolist(), wb.tolist(), e, tol_coef, ctx))
+        e = np.abs(coefs - wb)
+        ratios.append(float((e / tol_coef).max()))
+        if not (e <= tol_coef).all():
+            k = int(np.argmax(e / tol_coef))
+            raise Violation("coef_wrong", "%s: coefficients %s vs exact %s (entry %d: err %.3g > tol %.3g); %s"
+                            % (what, coefs.tolist(), wb.tolist(), k, e[k], tol_coef[k], ctx))
         ei = abs(float(intercept) - float(c))
         if not ei <= tol_int:
             raise Violation("intercept_wrong", "%s: intercept %r vs exact %r (err %.3g > tol %.3g); %s" % (what, float(intercept), float(c), ei, tol_int, ctx))
@@ -106,7 +119,7 @@ def check(case):
             raise Violation("residual_mean_nonzero", "%s: residual mean %.3g (tol %.3g); %s" % (what, float(rmean), 2 * tol_int, ctx))
         for s in Sl:
             rc = cov[y][s] - sum(fb[i] * cov[i][s] for i in range(p))
-            tol_rc = norms.get("sss", 0.0) * tol_coef * 2 + 1e-300
+            tol_rc = 2 * len(Sl) * max(abs(float(cov[i][s])) * tol_coef[i] for i in Sl) + 1e-300
             if not abs(float(rc)) <= tol_rc:
                 raise Violation("residual_correlated", "%s: cov(residual, X%d) = %.3g (tol %.3g); %s" % (what, s, float(rc), tol_rc, ctx))
         em = abs(float(msev) - float(mse))
@@ -131,6 +144,8 @@ def check(case):
     if abs(float(m2) - float(m1)) > 2 * tol_mse:
         raise Violation("mse_order_dependent", "mse(%d,%s)=%r but mse(%d,%s)=%r; %s" % (y, Sl, m1, y, S2, m2, ctx))
     lab.append("repeat")
+    r = max(ratios) if ratios else 0.0
+    lab.append("coef_ratio_%s" % ("lt1e-3" if r < 1e-3 else "lt1e-2" if r < 1e-2 else "lt1e-1" if r < 1e-1 else "lt1"))
     # mse does not depend on the means
     other = must(lib(sempler.NormalDistribution, fmean + np.arange(1, p + 1) * 3.5, fcov.copy()), "NormalDistribution")
     m3 = must(lib(other.mse, y, list(Sl)), "mse (other mean)")
